@@ -19,18 +19,23 @@
                   XrefSectP succeeds          ⇒ IXSect (its entries) (scan("trailer") + TrailerP: exact "trailer",
                                                  WhitespaceEOL(true), DictP in a context of depth 0/50; /Root,
                                                  /Prev, /XRefStm read as the Rust reads them)
-                  else IndirectP succeeds     ⇒ IObj (num, gen) value   (fresh PDFObjContext::new(50))
+                  else IndirectP succeeds     ⇒ (fresh PDFObjContext::new(50))
+                       a stream on which XrefStreamP succeeds (no filter)  ⇒ IXStm (num, gen) entries /Root /Prev
+                       a stream on which ObjStreamP succeeds (no filter)   ⇒ IObjStm (num, gen) length None members
+                       anything else                                        ⇒ IObj (num, gen) value
                   else                        ⇒ IGarbage
 
-   RESTRICTION (the classic layout): IndirectP is run in an EMPTY context, so a stream whose /Length is a
-   reference is InsufficientContext here ⇒ IGarbage (the abstract IObj item carries the stream's content, which
-   for a referenced length depends on the context); xref streams and object streams are reported as plain IObj
-   items (never IXStm / IObjStm), so files using them are not abstracted faithfully.  Trailers with /Encrypt are
-   read like any other.  The duplicate-id test and the /Length lookup of IndirectP are re-done by
+   RESTRICTIONS: IndirectP is run in an EMPTY context, so a stream whose /Length is a reference is
+   InsufficientContext here ⇒ IGarbage (the abstract item carries the stream's content, which for a referenced
+   length depends on the context).  Xref streams and object streams are recognised only when they declare NO
+   filter (the decoders are another property, C06/C07, and need the zlib oracle): a filtered one is reported as a
+   plain IObj item, so files using them are not abstracted faithfully.  An object stream whose own parse stops
+   half-way (a duplicate member, a malformed member) is reported as a plain IObj item (the real loader keeps the
+   members registered before the failure).  Trailers with /Encrypt are read like any other.  The duplicate-id test and the /Length lookup of IndirectP are re-done by
    Loader.indirect on the item, in the loader's own context.
 
    [rel] is the build-profile flag of Prim.lit_string (it matters only beyond 2^31 parentheses). *)
-From PV Require Import Model.Obj Model.XrefTab Model.Loader.
+From PV Require Import Model.Obj Model.XrefTab Model.XrefStm Model.ObjStm Model.Loader.
 
 (* ---------- keywords ---------- *)
 Definition kw_pdf : bytes := [37; 80; 68; 70; 45]%N.                                   (* "%PDF-" *)
@@ -128,6 +133,44 @@ Definition conv_st (s : XrefTab.xstat) : xstatus :=
   end.
 Definition conv_ent (e : XrefTab.xent) : xent := mkxent (xe_obj e) (xe_gen e) (conv_st (xe_st e)).
 
+(* XrefStreamP (pdf_streams.rs; Model/XrefStm.v) on the content of a stream object, as parse_xref_stream calls it:
+   a view of the content, cursor 0, ctxt.is_encrypted() = false.  Only without filters. *)
+Definition xstm_item (id : oid) (d : list (bytes * obj)) (content : bytes) : option item :=
+  match get_dict_info d with
+  | Ok m =>
+    match xi_filters m with
+    | [] =>
+      match xrefstm_parse false d content [] 0 with
+      | XSOk ents _ _ _ => Some (IXStm id (List.map conv_ent ents) (dict_get d key_Root) (dict_usize d key_Prev))
+      | _ => None
+      end
+    | _ => None
+    end
+  | _ => None
+  end.
+
+(* ObjStreamP (Model/ObjStm.v) on the content of a stream object, as parse_objects calls it (context of depth 0/50),
+   in an empty context.  Only without filters. *)
+Definition ostm_item (rel : bool) (id : oid) (d : list (bytes * obj)) (content : bytes) : option item :=
+  match stream_filters d with
+  | Ok [] =>
+    match objstm_parse rel 50 false d content [] [] with
+    | (OSOk l, _) => Some (IObjStm id (N.of_nat (len content)) None (List.map (fun e => (fst (fst (fst e)), snd (fst (fst e)))) l))
+    | _ => None
+    end
+  | _ => None
+  end.
+
+Definition obj_item (rel : bool) (id : oid) (v : obj) : item :=
+  match v with
+  | OStream d content =>
+    match xstm_item id d content with
+    | Some it => it
+    | None => match ostm_item rel id d content with Some it => it | None => IObj id v end
+    end
+  | _ => IObj id v
+  end.
+
 Definition item_at (rel : bool) (v : bytes) (o : nat) : item * N :=
   match xsectp v o with
   | POk (subs, _, _) c1 =>
@@ -135,7 +178,7 @@ Definition item_at (rel : bool) (v : bytes) (o : nat) : item * N :=
     (IXSect (List.map conv_ent (sect_ents subs)) tr, N.of_nat c2)
   | _ =>
     match indirect_p rel 50 [] v o with
-    | POk (i, _, _) c1 => (IObj (i_num i, i_gen i) (i_obj i), N.of_nat c1)
+    | POk (i, _, _) c1 => (obj_item rel (i_num i, i_gen i) (i_obj i), N.of_nat c1)
     | _ => (IGarbage, N.of_nat o)
     end
   end.
